@@ -146,7 +146,7 @@ def _check_item(item, fp_type=None, force_db=False):
     if force_db and isinstance(item, Fingerprint):
         if not fp_type:
             fp_type = item.__class__
-        db = FingerprintDatabase(fp_type=fp_type)
+        db = FingerprintDatabase(fp_type=fp_type, level=item.level)
         db.add_fingerprints([item])
         item = db
     elif fp_type and isinstance(item, FingerprintDatabase):
